@@ -106,6 +106,17 @@ Theorem C17_stream_trace_holds : forall m0 ops, forallb StreamQuota_proofs.op_wf
 Proof. exact StreamQuota_proofs.model_trace_holds. Qed.
 Print Assumptions C17_stream_trace_holds.
 
+(* "... or the stream ends", on a real client stream: in the stream-admission cases a sender
+   may block in writeQuota.get of an open stream (it wrote more than the write quota to a peer
+   that does not read); after every operation senders are blocked only on streams that are
+   still open, i.e. the end of a stream (RST_STREAM, client close, transport close) releases
+   its sender.  Clause 7 of the StreamQuota engine states this of the implementation. *)
+Theorem C17_stream_end_releases_sender : forall s held e tid op s' held' e' o,
+  StreamQuota.op_step s held e tid op = Some (s', held', e', o) ->
+  forall id, In id (StreamQuota.wr e') -> In id (StreamQuota.open s').
+Proof. exact StreamQuota_proofs.senders_only_on_open_streams. Qed.
+Print Assumptions C17_stream_end_releases_sender.
+
 Theorem C17_runner_steps_are_atomic_steps : forall s tid op s' o, Inv s ->
   op_step s tid op = Some (s', o) -> exists acts, s' = exec s acts.
 Proof. exact op_step_reach. Qed.
